@@ -405,7 +405,7 @@ def run(ctx):
     import re
     rng = ctx.rng
     pool = build_pool(rng)
-    n_cases = ctx.scale(8000, 120000)
+    n_cases = ctx.scale(6000, 120000)
     cases = [make_case(rng, pool) for _ in range(n_cases)]
     goals = [make_goal(case, rng) for case in cases]
     B = 40
